@@ -90,6 +90,49 @@ def grid_case(case):
         shutil.rmtree(d, ignore_errors=True)
 
 
+def grid_history_case(case):
+    """write / read histories that REUSE the same paths (and the same reader instance) for different grids"""
+    d = tempfile.mkdtemp(prefix="c20h_", dir=case["tmp"])
+    vs = []
+    steps = 0
+    try:
+        P = {k: os.path.join(d, k + (".npy" if k in ("array", "volumes") else ".npz"))
+             for k in ("array", "volumes", "borders", "distances", "adjacency")}
+        shared = GridReader()
+        for si, (b, o, t, cart) in enumerate(case["sequence"]):
+            steps += 1
+            key = f"C20|path_reuse|seq={case['name']}|step={si}|b={b}|o={o}|t={t}|cart={cart}"
+            try:
+                gw = GridWriter(b, o, t, factor=2, position_grid_cartesian=cart)
+                fg = FullGrid(b, o, t, factor=2, position_grid_cartesian=cart)
+                gw.save_full_grid(P["array"]); gw.save_volumes(P["volumes"]); gw.save_borders_array(P["borders"])
+                gw.save_distances_array(P["distances"]); gw.save_adjacency_array(P["adjacency"])
+                mem = {"array": np.asarray(fg.get_full_grid_as_array()), "volumes": np.asarray(fg.get_total_volumes()),
+                       "borders": fg.get_full_borders(), "distances": fg.get_full_distances(),
+                       "adjacency": fg.get_full_adjacency()}
+                for rname, gr in (("shared_reader", shared), ("fresh_reader", GridReader())):
+                    back = {"array": gr.load_full_grid(P["array"]), "volumes": gr.load_volumes(P["volumes"]),
+                            "borders": gr.load_borders_array(P["borders"]), "distances": gr.load_distances_array(P["distances"]),
+                            "adjacency": gr.load_adjacency_array(P["adjacency"])}
+                    for k in ("array", "volumes"):
+                        a, c = mem[k], np.asarray(back[k])
+                        if a.shape != c.shape or a.tobytes() != c.tobytes():
+                            vs.append(viol(key + f"|{rname}|{k}", f"{k} read back after re-using the path for another grid is "
+                                           "not the grid just written (stale data)", case, expected=list(a.shape),
+                                           observed=list(c.shape)))
+                    for k in ("borders", "distances", "adjacency"):
+                        if sparse_sig(mem[k]) != sparse_sig(back[k]):
+                            vs.append(viol(key + f"|{rname}|{k}", f"{k} read back after re-using the path is not the matrix "
+                                           "just written", case))
+            except Exception as e:
+                vs.append(viol(key + "|raises", f"{type(e).__name__}: {str(e)[:100]}", case))
+            if vs:
+                break
+        return {"violations": vs[:4], "steps": steps}
+    finally:
+        shutil.rmtree(d, ignore_errors=True)
+
+
 # ---------------------------------------------------------------------------------------------- (ii) xvg
 def make_xvg(h, total, nleg, nrows, rot):
     legends = [LEGENDS[(rot + i) % len(LEGENDS)] for i in range(nleg)]
@@ -139,6 +182,27 @@ def xvg_case(case):
             except Exception:
                 vs.append(viol(pre + "|values_type", "non-numeric values parsed", case, observed=str(got[:1])))
         if not vs:
+            # call history on ONE reader instance: load, load again, every single column, load again
+            try:
+                er = EnergyReader(path)
+                seq = [("load_energy#1", er.load_energy().to_numpy(dtype=float)),
+                       ("load_energy#2", er.load_energy().to_numpy(dtype=float))]
+                for c, lg in enumerate(legends):
+                    col = np.asarray(er.load_single_energy_column(lg), dtype=float)
+                    if col.shape != want[:, c + 1].shape or not np.array_equal(col, want[:, c + 1]):
+                        vs.append(viol(pre + "|instance_reuse|single_column", f"column '{lg}' read as call {c + 3} on the same "
+                                       "EnergyReader instance differs from the file", case, expected=want[:, c + 1].tolist()[:3],
+                                       observed=col.tolist()[:3]))
+                        break
+                seq.append(("load_energy#last", er.load_energy().to_numpy(dtype=float)))
+                for name, g in seq:
+                    if g.shape != want.shape or not np.array_equal(g, want):
+                        vs.append(viol(pre + f"|instance_reuse|{name}", f"{name} on the same EnergyReader instance differs from "
+                                       "the file", case, expected=list(want.shape), observed=list(g.shape)))
+                        break
+            except Exception as e:
+                vs.append(viol(pre + "|instance_reuse|raises", f"{type(e).__name__}: {str(e)[:100]}", case))
+        if not vs:
             for c, lg in enumerate(legends):
                 try:
                     col = EnergyReader(path).load_single_energy_column(lg)
@@ -179,6 +243,15 @@ def run(ctx):
                                  ("cube4D_16", "ico_5", "[0.2,0.3]", False, 2), ("randomQ_5", "randomS_13", "0.3", False, 2)]:
             gcs.append({"b": b, "o": o, "t": t, "cartesian": cart, "f": f, "tmp": tmp})
         gres = ctx.pmap(grid_case, gcs, chunksize=2, recheck=2)
+        G = [("1", "4", "[0.2,0.3]", False), ("2", "3", "[0.1,0.2,0.4]", False), ("4", "5", "0.3", True),
+             ("cube4D_5", "ico_6", "[0.2,0.3]", True)]
+        hcs = []
+        import itertools as _it
+        for a, b_ in _it.permutations(range(len(G)), 2):
+            hcs.append({"history": True, "name": f"{a}{b_}{a}", "sequence": [G[a], G[b_], G[a]], "tmp": tmp})
+        hres = ctx.pmap(grid_history_case, hcs, chunksize=1, recheck=1)
+        for r in hres:
+            rep.add_violations(r["violations"])
         xcs = []
         for h in range(0, 14):
             for total in (13, 14, 20):
@@ -205,6 +278,7 @@ def run(ctx):
                     "texts and values; distinct_nontrivial = grids + xvg files (all distinct)",
             "samples": collect_samples([f"{c['b']}/{c['o']}/{c['t']}/{c['cartesian']}" for c in done], 3) +
                        collect_samples([{k: c[k] for k in ("h", "total", "nleg", "nrows")} for c in xcs], 3),
+            "path_reuse_histories": len(hcs), "path_reuse_steps": sum(r["steps"] for r in hres),
             "grids_round_tripped": len(done), "grids_not_constructible": len(gcs) - len(done), "xvg_files": len(xcs),
             "exhaustive": True, "bound": {"hash_lines": "0..13", "legends": "1..10", "rows": [1, 2, 7]},
         }
@@ -218,6 +292,8 @@ def replay(case):
     tmp = tempfile.mkdtemp(prefix="verif_c20_")
     try:
         c = dict(case, tmp=tmp)
+        if c.get("history"):
+            return grid_history_case(c)["violations"]
         return (grid_case(c) if "b" in c else xvg_case(c))["violations"]
     finally:
         shutil.rmtree(tmp, ignore_errors=True)
